@@ -353,7 +353,7 @@ pub fn gen_case(t: &mut Tape) -> (Script, Vec<LifePlan>) {
             s.http.push(HttpSpec::Resp(RespSpec { status: 200, retry_after: vec![], retry_after_name_case: 0, body: BodySpec::DefaultNoUpdate, auth: Auth::Authentic, prefix: false }));
         }
         s.plans.push((true, t.choose(3) as u8));
-        s.installs.push(InstallSpec { results: (0..3).map(|_| t.weighted(&[5, 1, 2]) as u8).collect(), progress: vec![] });
+        s.installs.push(InstallSpec { results: (0..3).map(|_| t.weighted(&[5, 1, 2]) as u8).collect(), progress: vec![], concurrent: 0 });
         s.reboot_needed.push(!t.chance(1, 4));
         s.reboot_allowed.push((!t.chance(1, 4), true));
     }
